@@ -1,4 +1,6 @@
 import RosuModel.Lemmas.StrainsVecOps
+import RosuModel.Lemmas.Lifetime
+import RosuModel.Gen.Lifetime
 
 /-!
 # C11 (a) — the compact strain list never performs an invalid access and behaves like a plain
@@ -9,8 +11,10 @@ All statements are about the bit-level model `Model/StrainsVec.lean` of the comp
 pushes of arbitrary 64-bit patterns (positive, zero, negative, subnormal, NaN, ±∞) and every
 operation sequence respecting the methods' documented preconditions.
 
-Parts (b) self-referential gradual structs and (c) the decoder's pointer scratch buffer are
-not covered by theorems (see tools/props/C11.json `partial`).
+Parts (b) self-referential gradual structs and (c) the decoder's pointer scratch buffer: second
+half of this file (`namespace Rosu.Lifetime`) — theorems over all operation sequences of the
+pointer-discipline model `Model/Lifetime.lean`, whose premises about the source are re-extracted
+into `Gen/Lifetime.lean` on every run and compared here.
 -/
 
 namespace Rosu.SV
@@ -162,3 +166,248 @@ example : Disciplined false [.push 1, .push 0, .retain, .sortDesc, .update (fun 
   simp [Disciplined]
 
 end Rosu.SV
+
+
+/-!
+# C11 (b), (c) — the lifetime-extended pointers of the gradual calculators and the decoder's
+raw-pointer scratch buffer never dangle when dereferenced
+
+Model: `Model/Lifetime.lean` (abstract heap: blocks with liveness / generation / frozen flag,
+pointers `(block, generation)`; calculators = movable handle + immovable heap blocks + stored
+pointers; field-by-field drop in declaration order; the statement sequence of `point_split`).
+A *fault* is a dereference of a pointer whose block is dead or has another generation, a second
+free, or a write to a frozen block.  This is a model of the **discipline** the SAFETY comments
+rely on, not of Rust's aliasing rules (Stacked / Tree Borrows) — the Miri findings on
+`OsuGradualDifficulty` concern exactly that part and stay recorded as known findings.
+-/
+
+namespace Rosu.Lifetime
+open Rosu.Gen.Lifetime
+
+/-! ## (b) premises, re-extracted from the current source -/
+
+def osuSrcLayout : Layout :=
+  layoutOf osuFields "diff_objects" "osu_objects" ((osuStorage.lookup "objects").getD "?") dropImpls
+
+def taikoSrcLayout : Layout :=
+  layoutOf taikoFields "diff_objects_iter" "diff_objects" ((taikoStorage.lookup "objects").getD "?") dropImpls
+
+/-- The extractor followed every shape. -/
+theorem premise_extractor_complete : unknown = [] := by decide
+
+/-- The only struct fields with a `'static`-extended type are the two modelled borrowers: no
+third self-referential struct has appeared. -/
+theorem premise_only_two_static_borrowers :
+    staticFields.map (fun f => (f.1, f.2.1, f.2.2.1)) =
+      [("src/osu/difficulty/gradual.rs", "OsuGradualDifficulty", "diff_objects"),
+       ("src/taiko/difficulty/gradual.rs", "TaikoGradualDifficulty", "diff_objects_iter")] := by
+  decide
+
+/-- `OsuGradualDifficulty`: the borrower `diff_objects` (a `Box` of its own) is declared, hence
+dropped, before the owner `osu_objects`, whose storage is a `Box<[OsuObject]>`; nothing in the crate
+implements `Drop`. -/
+theorem premise_osu_layout : osuSrcLayout = osuLayout := by decide
+
+/-- `TaikoGradualDifficulty`: the borrower `diff_objects_iter` is an inline `slice::Iter`, the
+storage is the `Vec` that `iter()` walks, and nothing in the crate implements `Drop` (so the
+borrower's drop glue dereferences nothing).  As written the owner `diff_objects` is declared
+before the borrower; the opposite order would be sound as well (and is accepted). -/
+theorem premise_taiko_layout :
+    (taikoSrcLayout = taikoLayout ∨ taikoSrcLayout = { taikoLayout with order := [.borrower, .owner] }) ∧
+    taikoIterBody = "self.objects.iter()" := by decide
+
+/-- The pointers are created where the model says: `extend_lifetime` is applied to the boxed
+difficulty objects / to `diff_objects.iter()` in `new`, nowhere else. -/
+theorem premise_extend_sites :
+    osuExtendCalls = ["let diff_objects = extend_lifetime(diff_objects.into_boxed_slice());"] ∧
+    taikoExtendCalls = ["let diff_objects_iter = extend_lifetime(diff_objects.iter());"] := by decide
+
+/-- Neither struct is `Clone`/`Copy` (derive or manual impl), and no function other than `new`
+builds or destructures one: `cloneBitwise` is not an operation of the real types. -/
+theorem premise_not_clone :
+    osuDerives.all (fun d => d != "Clone" && d != "Copy") = true ∧ osuCloneImpls = [] ∧
+    taikoDerives.all (fun d => d != "Clone" && d != "Copy") = true ∧ taikoCloneImpls = [] ∧
+    osuStructLiterals = [] ∧ taikoStructLiterals = [] := by decide
+
+/-- Read-only shapes of a use of the owned storage / of the borrower after construction. -/
+def readOnlyUses : List String :=
+  ["&self.diff_objects", "self.diff_objects.get", "self.diff_objects.iter", "self.diff_objects.len",
+   "self.diff_objects.is_empty", "self.diff_objects.first", "self.diff_objects.last",
+   "&self.osu_objects", "self.osu_objects.is_empty",
+   -- advancing the `slice::Iter` moves the pointer pair inside the same block
+   "self.diff_objects_iter.next", "self.diff_objects_iter.len", "self.diff_objects_iter.as_slice"]
+
+/-- After construction, every use of the owner and borrower fields (in the only files that can
+name them: the fields are private) is a shared read: `mutateOwner` is not an operation of the real
+types.  (`OsuObjects::iter_mut`, the only `&mut` accessor, is used on the local in `new` only.) -/
+theorem premise_owner_uses_read_only :
+    (osuOwnerUses ++ osuBorrowerUses ++ taikoOwnerUses ++ taikoBorrowerUses).all
+      (readOnlyUses.contains ·) = true := by decide
+
+/-- The owner / borrower fields are private (no other module can touch them). -/
+theorem premise_fields_private :
+    ((osuFields.filter (fun f => f.2.1 == "diff_objects" || f.2.1 == "osu_objects")).map (·.1)) = ["", ""] ∧
+    ((taikoFields.filter (fun f => f.2.1 == "diff_objects" || f.2.1 == "diff_objects_iter")).map (·.1)) = ["", ""] := by
+  decide
+
+/-- All premises of part (b) at once. -/
+theorem lifetime_premises_hold :
+    unknown = [] ∧ osuSrcLayout = osuLayout ∧
+    osuSrcLayout.safe = true ∧ taikoSrcLayout.safe = true ∧ dropImpls = [] := by decide
+
+/-! ## (b) theorems over all operation sequences -/
+
+/-- **Main invariant.** Every sequence of admissible operations — constructions with sound
+layouts (in particular the two real ones), moves, `next`, `nth`, `len`, drops, addressed to
+arbitrarily many interleaved instances in one heap — runs without a fault and ends in a
+well-formed world: every stored pointer targets a live block of its own instance at the block's
+current generation, and that block is frozen. -/
+theorem calculators_never_fault (ops : List Op) (h : ∀ op ∈ ops, op.admissible = true) :
+    ∃ w, run World.empty ops = .ok w ∧ Wf w :=
+  run_wf ops World.empty wf_empty h
+
+/-- The real layouts are admissible. -/
+theorem real_layouts_admissible (n m : Nat) :
+    (Op.construct osuSrcLayout n).admissible = true ∧ (Op.construct taikoSrcLayout m).admissible = true := by
+  exact ⟨lifetime_premises_hold.2.2.1, lifetime_premises_hold.2.2.2.1⟩
+
+/-- Every dereference performed by `next` / `nth` / `len` (and by drop glue) after any admissible
+history is to a valid pointer. -/
+theorem every_dereference_valid (ops : List Op) (h : ∀ op ∈ ops, op.admissible = true) (w : World)
+    (hr : run World.empty ops = .ok w) (op : Op) : ∀ p ∈ derefs w op, validPtr w.heap p := by
+  obtain ⟨w', h1, hw⟩ := calculators_never_fault ops h
+  rw [hr] at h1
+  cases h1
+  exact derefs_valid w hw op
+
+/-- After `dropStruct` no pointer of that instance is dereferenced, and none stays stored. -/
+theorem no_deref_after_drop (w : World) (hw : Wf w) (i : Nat) (inst : Inst)
+    (hi : w.insts[i]? = some inst) (hd : inst.alive = false) (k : Nat) :
+    derefs w (.next i) = [] ∧ derefs w (.nth i k) = [] ∧ derefs w (.len i) = [] ∧
+    derefs w (.dropStruct i) = [] ∧ inst.ptrs = [] := by
+  simp [derefs, hi, hd, (hw.insts i inst hi).dead_no_ptrs hd]
+
+/-- Moving the struct (into a `Box`, a reallocating `Vec`, a closure, a thread) changes the handle
+only: heap, block ids, generations and the stored pointers are untouched. -/
+theorem move_keeps_blocks (w : World) (hw : Wf w) (i to : Nat) (inst : Inst)
+    (hi : w.insts[i]? = some inst) :
+    (moveInst w i to).heap = w.heap ∧
+    ∀ inst', (moveInst w i to).insts[i]? = some inst' →
+      inst'.ptrs = inst.ptrs ∧ inst'.owner = inst.owner ∧ inst'.holder = inst.holder :=
+  moveInst_heap w i to inst hi (safe_not_inline (hw.insts i inst hi).safe)
+
+/-- No double free: freeing a dead block is a fault, faults never happen, and a dead block is
+never revived — so every block is freed at most once … -/
+theorem no_double_free (ops : List Op) (h : ∀ op ∈ ops, op.admissible = true) :
+    faultOf (run World.empty ops) = none := by
+  obtain ⟨w, h1, _⟩ := calculators_never_fault ops h
+  rw [h1]; rfl
+
+theorem dead_blocks_stay_dead (w : World) (hw : Wf w) (op : Op) (ha : op.admissible = true)
+    (w' : World) (hs : step w op = .ok w') (b : Nat) (blk : Block)
+    (hb : w.heap[b]? = some blk) (hd : blk.live = false) :
+    ∃ blk', w'.heap[b]? = some blk' ∧ blk'.live = false :=
+  step_dead_stays_dead w hw op ha w' hs b blk hb hd
+
+theorem second_free_is_a_fault (h : List Block) (b : Nat) (blk : Block) (hb : h[b]? = some blk)
+    (hd : blk.live = false) : free h b = .error .doubleFree := free_dead_is_fault hb hd
+
+/-- … and at least once (no leak): when every instance has been dropped, every block is dead. -/
+theorem no_leak (ops : List Op) (h : ∀ op ∈ ops, op.admissible = true) (w : World)
+    (hr : run World.empty ops = .ok w) (hall : ∀ inst ∈ w.insts, inst.alive = false) :
+    ∀ blk ∈ w.heap, blk.live = false := by
+  obtain ⟨w', h1, hw⟩ := calculators_never_fault ops h
+  rw [hr] at h1
+  cases h1
+  exact no_leak_of_wf w hw hall
+
+/-! ### the premises matter (counter-witnesses) and non-vacuity -/
+
+/-- A write to the owned storage after construction is rejected by the discipline … -/
+theorem mutate_owner_violates :
+    faultOf (run World.empty [.construct osuLayout 3, .next 0, .mutateOwner 0]) = some .writeWhileFrozen := by
+  decide
+
+/-- … a field-wise clone leaves the clone pointing into the original: use after free once the
+original is dropped … -/
+theorem clone_then_drop_original_violates :
+    faultOf (run World.empty [.construct taikoLayout 2, .cloneBitwise 0, .dropStruct 0, .next 1])
+      = some .useAfterFree := by decide
+
+/-- … storage kept inline in the struct would move with it … -/
+theorem inline_storage_move_violates :
+    faultOf (run World.empty [.construct ⟨[.borrower, .owner], true, false, true⟩ 2, .moveStruct 0 1, .next 0])
+      = some .staleGeneration := by decide
+
+/-- … and dropping the owner first is only sound because the borrower's drop glue does not look
+at the pointers (`TaikoGradualDifficulty` relies on this; `OsuGradualDifficulty` does not). -/
+theorem owner_first_with_dereferencing_glue_violates :
+    faultOf (run World.empty [.construct ⟨[.owner, .borrower], false, true, false⟩ 2, .dropStruct 0])
+      = some .useAfterFree ∧
+    faultOf (run World.empty [.construct ⟨[.borrower, .owner], true, true, false⟩ 2, .dropStruct 0]) = none := by
+  decide
+
+/-- Non-vacuity: three interleaved instances (osu, taiko, osu), moved, stepped, one dropped
+mid-iteration, all dropped at the end: no fault, no block left. -/
+example :
+    (match run World.empty [.construct osuLayout 3, .construct taikoLayout 2, .next 0, .moveStruct 0 7,
+        .construct osuLayout 0, .next 1, .nth 0 2, .dropStruct 1, .next 0, .len 2, .moveStruct 2 9,
+        .next 2, .dropStruct 0, .dropStruct 2] with
+      | .ok w => (liveBlocks w, liveInsts w, w.heap.length)
+      | .error _ => (99, [], 0)) = (0, [], 5) := by decide
+
+example : (match run World.empty [.construct osuLayout 3, .construct taikoLayout 2, .dropStruct 0] with
+      | .ok w => (liveBlocks w, liveInsts w)
+      | .error _ => (99, [])) = (1, [1]) := by decide
+
+/-! ## (c) the decoder's scratch buffer -/
+
+/-- The statements of `fn point_split` in the current source are the modelled program. -/
+theorem premise_point_split_program : pointSplitStmts.map PStmt.ofTag = realProg := by decide
+
+/-- `self.point_split` (the field) is touched only inside `fn point_split` (and initialised empty
+in `create`); the method is called from `convert_path_str` only — so no nested call and the
+closure cannot reach the buffer; the field is private, of type `Vec<*const str>`; no other file
+names it. -/
+theorem premise_point_split_confined :
+    pointSplitFieldAccessFns = ["literal-in:create", "point_split"] ∧
+    pointSplitCallFns = ["convert_path_str"] ∧
+    pointSplitField = ("", "Vec<*const str>") ∧
+    pointSplitInits = ["Vec::with_capacity(8)"] ∧
+    pointSplitOtherFiles = [] := by decide
+
+/-- **Invariant.** For the real control flow and every history of lines, `point_split` calls
+(any number of pieces; closure result `Ok`, `Err` or a panic) and line ends: no pointer into an
+earlier line's buffer is ever dereferenced, the `&[&str]` view is never used after the scratch
+vector changed, and the scratch vector is empty at every operation boundary — in particular at
+every line boundary. -/
+theorem scratch_empty_at_every_boundary (ops : List DOp) :
+    ∃ d, runD realProg Dec.init ops = .ok d ∧ d.scratch = [] :=
+  runD_real ops Dec.init rfl
+
+/-- The same for the program as extracted from the source on this run. -/
+theorem scratch_discipline_of_current_source (ops : List DOp) :
+    ∃ d, runD (pointSplitStmts.map PStmt.ofTag) Dec.init ops = .ok d ∧ d.scratch = [] := by
+  rw [premise_point_split_program]
+  exact scratch_empty_at_every_boundary ops
+
+/-- The variant that returns early on `Err` (`f(self, s)?; self.point_split.clear(); Ok(())`)
+violates the invariant with a two-line history: after a rejected first line the buffer still
+holds pointers into that line, and the next line's call dereferences them. -/
+theorem skip_clear_on_error_violates :
+    (match runD skipClearOnErrProg Dec.init [.enterLine, .pointSplit 2 .err, .leaveLine] with
+      | .ok d => d.scratch.length | .error _ => 0) = 2 ∧
+    faultOf (runD skipClearOnErrProg Dec.init
+      [.enterLine, .pointSplit 2 .err, .leaveLine, .enterLine, .pointSplit 1 .ok]) = some .staleGeneration := by
+  decide
+
+/-- An unrecognised statement is a fault of the model, never skipped. -/
+theorem unknown_statement_is_a_fault :
+    faultOf (runD ([.extend, .asPtr, .len, .fromRaw, .callF, PStmt.ofTag "UNKNOWN:x", .clear, .ret])
+      Dec.init [.enterLine, .pointSplit 1 .ok]) = some .unknownShape := by decide
+
+example : (match runD realProg Dec.init [.enterLine, .pointSplit 3 .err, .leaveLine, .enterLine,
+      .pointSplit 2 .ok, .pointSplit 1 .err, .leaveLine, .enterLine, .pointSplit 4 .panic, .enterLine] with
+    | .ok d => (d.alive, d.lineGen, d.scratch) | .error _ => (true, 0, [0])) = (false, 3, []) := by decide
+
+end Rosu.Lifetime
